@@ -191,7 +191,16 @@ fn apply<E: Elem, V: VecLike<E>>(slot: &mut Option<V>, world: u8, act: VAct, lab
             drop(items);
         }
         VAct::Append { n: k } => {
-            let mut other = vec.from_iter_like(src(world, labels, k as usize, 0), 0);
+            // n >= 100: a donor with a large reserved buffer (several pages) holding n - 100 elements
+            let mut other = if k >= 100 {
+                let mut o = vec.with_cap(1500);
+                for _ in 0..(k - 100) {
+                    o.v_push(E::mk(world, labels.take(), 1));
+                }
+                o
+            } else {
+                vec.from_iter_like(src(world, labels, k as usize, 0), 0)
+            };
             vec.v_append(&mut other);
             obs.n(other.sl().len() as i64);
             drop(other);
@@ -914,6 +923,10 @@ impl VecModel {
                     acts.push(VAct::WriteIo { n: k, all: true });
                 }
             }
+        }
+        if l >= 20 && room >= 2 {
+            acts.push(VAct::Append { n: 102 });
+            acts.push(VAct::Append { n: 100 });
         }
         if E::COPY {
             acts.push(VAct::ExtendCopies { a: 0, b: 0 });
